@@ -1720,6 +1720,9 @@ class RTCSctpTransport(AsyncIOEventEmitter):
                 for queue_item in self._data_channel_queue:
                     if queue_item[0] != channel:
                         new_queue.append(queue_item)
+                    elif queue_item[1] != WEBRTC_DCEP:
+                        # the message will never be sent, it is no longer buffered
+                        channel._addBufferedAmount(-len(queue_item[2]))
                 self._data_channel_queue = new_queue
 
                 # mark the datachannel as closed
